@@ -588,7 +588,10 @@ def bvm_observe(b, o, bits, rnd, kind="BVM", light=False):
     if kind in ("BV", "BVM"):
         pairs = get_bits_args(n, rnd)
         if light:
-            pairs = rnd.sample(pairs, min(40, len(pairs)))
+            # reads touching the last word of the storage are always kept
+            must = [pr for pr in pairs if pr[0] >= 0 and pr[1] >= 1 and n - 66 <= pr[0] + pr[1] <= n + 1]
+            rest = [pr for pr in pairs if pr not in must]
+            pairs = rnd.sample(must, min(30, len(must))) + rnd.sample(rest, min(25, len(rest)))
         b.qg(o, "get_bits", [], pairs)
         nw = (n + 63) // 64
         b.qg(o, "get_word", [], list(range(nw)))
@@ -1293,7 +1296,9 @@ def camp_c04(rnd, tier):
             quad_queries(b, x, Seqn.from_values([]), rnd, rs=(kind != "QV"), huge=ALLHUGE, syms=qsyms)
     # bit structures
     shapes = [("empty", Seqn.from_values([])), ("one0", Seqn.from_values([0])), ("one1", Seqn.from_values([1])),
-              ("zeros", Seqn.from_runs([([0], 600)])), ("ones", Seqn.from_runs([([1], 513)]))] + \
+              ("zeros", Seqn.from_runs([([0], 600)])), ("ones", Seqn.from_runs([([1], 513)])),
+              ("m512", Seqn.from_values(rand_seq(rnd, 512, [0, 1]))), ("m1024", Seqn.from_values(rand_seq(rnd, 1024, [0, 1]))),
+              ("n500", Seqn.from_values(rand_seq(rnd, 500, [0, 1])))] + \
         rnd.sample(bit_input_shapes(rnd, "quick"), 4 if tier == "quick" else 10)
     for name, s in shapes:
         for kind, path in (("RSN", "new"), ("RSW", "new"), ("DA0", "new"), ("DA1", "new"), ("DA1", "bools"), ("BV", "bools"), ("BVM", "bools")):
@@ -1624,4 +1629,56 @@ def camp_c18(rnd, tier):
             b.thr(o, rnd.choice([2, 8, 16]), rnd.choice([10, 30]) if tier == "quick" else rnd.choice([30, 200]), batch)
             b.pure(o, batch)
             b.drop(o)
+    return b
+
+
+# ------------------------------------------------------------------ model-fidelity report
+
+
+def camp_fidelity(rnd, tier, fams):
+    """objects whose private index tables are dumped and recomputed by the Level-1 models at the real constants"""
+    b = Beh()
+    big = tier == "thorough"
+    if "RSQ" in fams:
+        for kind in ("RSQ256", "RSQ512"):
+            # lengths whose last partial block is block 6 of its superblock (the sentinel block counter matters),
+            # multiples of the superblock size, and arbitrary ones
+            n = rnd.choice([1600, 2049, 3300 if kind == "RSQ512" else 3650, 4097, 5000]) if not big else rnd.choice([9000, 16000, 17000, 20481])
+            s = Seqn.from_values(skewed_seq(rnd, n, [0, 1, 2, 3], rnd.choice([1.0, 1.5, 3.0])))
+            b.reset()
+            o = b.newq(kind, "u8", "collect", s)
+            b.add({"k": "internals", "o": o})
+        if big:
+            s = Seqn.from_runs([([0, 1], 8200), ([2], 300), ([0], 8200), ([3, 1, 0], 100)])
+            b.reset()
+            o = b.newq("RSQ256", "u8", "collect", s)
+            b.add({"k": "internals", "o": o})
+    if "RSBin" in fams:
+        for kind in ("RSN", "RSW"):
+            n = rnd.choice([1500, 3000, 4609]) if not big else rnd.choice([9000, 20000, 36865])
+            dens = rnd.choice([0.1, 0.5, 0.9])
+            s = Seqn.from_values([1 if rnd.random() < dens else 0 for _ in range(n)])
+            b.reset()
+            o = b.newb(kind, "new", s)
+            b.add({"k": "internals", "o": o})
+    if "DArr" in fams:
+        runs = darray_group(rnd, "dense", 1) + (darray_group(rnd, "sparse", 1) if big else []) + darray_group(rnd, "partial", 1)
+        s = Seqn.from_runs(runs)
+        b.reset()
+        o = b.newb("DA1" if big or len(s) < 20000 else "DA0", "new", s)
+        b.add({"k": "internals", "o": o})
+    if "Huff4" in fams or "Huff2" in fams:
+        kinds = (QUAD_HUFF if "Huff4" in fams else []) + (["HWT"] if "Huff2" in fams else [])
+        for kind in (kinds if big else rnd.sample(kinds, min(2, len(kinds)))):
+            shapes = [x for x in huff_input_shapes(rnd, "quick", "u16", binary=(kind == "HWT")) if 0 < len(x[1]) <= (4000 if big else 700) and len(x[1].used_values()) <= 40]
+            for name, s in rnd.sample(shapes, min(len(shapes), 3 if big else 2)):
+                b.reset()
+                o = b.newt(kind, "u16", "from_vec", s, tie=rnd.choice([None, {"mode": "seed", "seed": rnd.randrange(1 << 20)}, {"mode": "desc"}]))
+                b.add({"k": "internals", "o": o})
+    if "WM" in fams:
+        for kind in (QUAD_PLAIN[:2] + ["WT"]):
+            s = Seqn.from_values(rand_seq(rnd, 50, [0, 1, rnd.choice([3, 4, 15, 16, 255, 256, 70000])]))
+            b.reset()
+            o = b.newt(kind, "u32", "new", s)
+            b.add({"k": "internals", "o": o})
     return b
